@@ -21,6 +21,7 @@ other.
 from __future__ import annotations
 
 import asyncio
+import contextvars
 import queue
 import sys
 import threading
@@ -138,8 +139,16 @@ class StdoutProxy:
             self.closed = True
 
     def _start_write_thread(self) -> threading.Thread:
+        # Run the flush thread in a copy of the current context. (A new thread
+        # starts with an empty context. The `run_in_terminal` call that this
+        # thread schedules in the event loop has to find the application of the
+        # `AppSession` that we captured above, also when that is not the
+        # default session, like within `create_app_session`.)
+        context = contextvars.copy_context()
+
         thread = threading.Thread(
-            target=self._write_thread,
+            target=context.run,
+            args=(self._write_thread,),
             name="patch-stdout-flush-thread",
             daemon=True,
         )
